@@ -211,7 +211,7 @@ func init() {
 		}
 	}
 	const docUnits = 64
-	fw.Register(addTok(tokFramesC17, &fw.Prop{
+	register(addTok(tokFramesC17, &fw.Prop{
 		ID: "C17",
 		Rule: "all JSON trees of depth <= 2 with <= 2 children per container over 12 scalars (incl. -0, 1e21, 5e-324, escapes, NUL) printed via print $, print $,$, a body-less rule and a bare print; trees of depth 1 over 19 further scalars (text-processing traps, strings that end in or consist of line ends and blanks); a structured sweep of doubles; 4 rule lists that print $ bare, change it in place (member store, push, callee, alias) and print it bare again; 12 statement lists whose print arguments run other print statements (callee, match block, two levels, printf) as one site over several records; " +
 			"all programs of <= L heap-building statements (cycles and sharing through arrays, objects, mixtures, popfirst-shared storage) printing every variable; oracle: reference renderer (DESIGN.md 3.14) byte for byte with probed key order, plus model-free laws " +
